@@ -340,6 +340,20 @@ func evaluate(srv *pvpeg.Server, pigeon, dir string, seed int64, i int, av pvpeg
 		os.Remove(outFile)
 		add("-o", outFile)
 	}
+	// a destination that opens but cannot be written (a full device): "writes a complete parser and exits 0, or prints a
+	// diagnostic and exits non-zero" - exit 0 is then never right
+	unwritable := false
+	if _, serr := os.Stat("/dev/full"); serr == nil && !has["-debug"] && !has["-x"] && r.Intn(12) == 0 {
+		unwritable = true
+		if outFile != "" {
+			for k, fl := range flags {
+				if fl == outFile {
+					flags[k] = "/dev/full"
+				}
+			}
+			outFile = "/dev/full"
+		}
+	}
 	inFile := filepath.Join(dir, "in.peg")
 	stdin := r.Intn(4) == 0
 	args := append([]string{}, flags...)
@@ -377,6 +391,12 @@ func evaluate(srv *pvpeg.Server, pigeon, dir string, seed int64, i int, av pvpeg
 		so.Reset()
 		se.Reset()
 		cmd.Stdout, cmd.Stderr = &so, &se
+		if unwritable && outFile == "" {
+			if f, oerr := os.OpenFile("/dev/full", os.O_WRONLY, 0); oerr == nil {
+				defer f.Close()
+				cmd.Stdout = f
+			}
+		}
 		cmd.WaitDelay = time.Second
 		err = cmd.Run()
 		timedOut := ctx.Err() != nil
@@ -431,6 +451,12 @@ func evaluate(srv *pvpeg.Server, pigeon, dir string, seed int64, i int, av pvpeg
 	}
 	if code == 3 && ans.Kind == "ok" {
 		fail("rejected-valid", "exit 3 although the front-end accepts the text; stderr: "+head)
+	}
+	if unwritable {
+		if code == 0 {
+			fail("silent-failure", "exit 0 although the parser could not be written (the destination is /dev/full: every write fails with ENOSPC)")
+		}
+		return it
 	}
 	if code == 0 && !has["-x"] {
 		var src []byte
